@@ -587,4 +587,168 @@ Proof.
   - discriminate Hok.
 Qed.
 
+
+(* ========================================================================= *)
+(* ---------- histories ---------- *)
+Notation hist_total := (hist_total K).
+Notation hist_count := (hist_count K).
+Notation ldf_peak := (ldf_peak K Keqb rnd).
+
+Lemma hist_weight_nonneg : forall o, op_ok K true o -> 0 <= hist_weight K o.
+Proof. intros [k q|k d|k|k] H; cbn [op_ok ListDictF.hist_weight] in *; try lra; tauto. Qed.
+
+Lemma hist_total_nonneg : forall ops, Forall (op_ok K true) ops -> 0 <= hist_total ops.
+Proof.
+  intros ops H. unfold ListDictF.hist_total. apply sumQ_map_nonneg. intros o Ho.
+  apply hist_weight_nonneg. rewrite Forall_forall in H. apply H. exact Ho.
+Qed.
+
+Lemma hist_cost_pos : forall o, op_ok K true o -> (1 <= hist_cost K o)%nat.
+Proof. intros [k q|k d|k|k] H; cbn [op_ok ListDictF.hist_cost] in *; try lia; discriminate H. Qed.
+
+Lemma qmax_lub : forall a b c, a <= c -> b <= c -> qmax a b <= c.
+Proof. intros a b c Ha Hb. unfold qmax. destruct (Qltb a b); assumption. Qed.
+
+(* every reachable state keeps the structural invariant and the reset property *)
+Lemma ldf_run_inv : forall ops s s', ldf_inv s -> weighted s = true -> reset_ok s ->
+  Forall (op_ok K true) ops -> ldf_run s ops = Ok s' ->
+  ldf_inv s' /\ weighted s' = true /\ reset_ok s'.
+Proof.
+  induction ops as [|o ops IH]; intros s s' Hinv Hw Hr Hok He.
+  - cbn [ListDictF.ldf_run] in He. injection He as He. subst s'. split; [exact Hinv|split; [exact Hw|exact Hr]].
+  - cbn [ListDictF.ldf_run] in He. inversion Hok as [|o' ops' Ho Hops]; subst o' ops'.
+    destruct (ldf_step_spec s o Hinv Hw Ho) as [[k [_ [_ E]]]|[s1 [E [Hi [Hw1 [Hr1 _]]]]]];
+      rewrite E in He; cbn [rbind] in He; [discriminate He|].
+    apply (IH s1 s' Hi Hw1 (Hr1 Hr) Hops He).
+Qed.
+
+(* the only failure is the removal of an absent key, exactly as for exact arithmetic *)
+Lemma ldf_step_fails : forall s o e, ldf_inv s -> weighted s = true -> op_ok K true o ->
+  ldf_step s o = Err e -> exists k, o = OpRemove k /\ pos s k = None /\ e = KeyErr.
+Proof.
+  intros s o e Hinv Hw Ho He.
+  destruct (ldf_step_spec s o Hinv Hw Ho) as [[k [Ek [Hp E]]]|[s1 [E _]]].
+  - exists k. split; [exact Ek|]. split; [exact Hp|]. congruence.
+  - congruence.
+Qed.
+
+(* drift against the peak magnitude of the run *)
+Lemma drift_le_peak : forall ops s s' j C, ldf_inv s -> weighted s = true ->
+  Forall (op_ok K true) ops -> ldf_run s ops = Ok s' ->
+  0 <= C -> Qabs (drift s) <= gam j * C -> 2 * ldf_peak s ops <= C ->
+  Qabs (drift s') <= gam (j + hist_count ops) * C.
+Proof.
+  induction ops as [|o ops IH]; intros s s' j C Hinv Hw Hok He HC HD HP.
+  - cbn [ListDictF.ldf_run] in He. injection He as He. subst s'.
+    cbn [ListDictF.hist_count fold_right]. rewrite Nat.add_0_r. exact HD.
+  - cbn [ListDictF.ldf_run] in He. inversion Hok as [|o' ops' Ho Hops]; subst o' ops'.
+    cbn [ListDictF.ldf_peak] in HP. cbv zeta in HP.
+    destruct (ldf_step_spec s o Hinv Hw Ho) as [[k [_ [_ E]]]|[s1 [E [Hi [Hw1 [_ [_ [_ Hd]]]]]]]];
+      rewrite E in He; cbn [rbind] in He; [discriminate He|].
+    rewrite E in HP.
+    pose proof (qmax_l (wsum s + hist_weight K o) (ldf_peak s1 ops)) as Hm1.
+    pose proof (qmax_r (wsum s + hist_weight K o) (ldf_peak s1 ops)) as Hm2.
+    assert (E2 : (j + hist_count (o :: ops))%nat = (j + hist_cost K o + hist_count ops)%nat).
+    { unfold ListDictF.hist_count. cbn [fold_right]. lia. }
+    rewrite E2. apply (IH s1 s' (j + hist_cost K o)%nat C Hi Hw1 Hops He HC).
+    + apply Hd; [exact HC|exact HD|lra].
+    + lra.
+Qed.
+
+(* the peak against the weights the history ever handed in *)
+Lemma peak_le_hist : forall ops s j A, ldf_inv s -> weighted s = true ->
+  Forall (op_ok K true) ops -> 0 <= A -> wsum s <= g j * A ->
+  ldf_peak s ops <= g (j + hist_count ops) * (A + hist_total ops).
+Proof.
+  induction ops as [|o ops IH]; intros s j A Hinv Hw Hok HA HS.
+  - cbn [ListDictF.ldf_peak]. pose proof (g_ge1 (j + hist_count [])).
+    apply Qmult_le_0_compat; [lra|]. unfold ListDictF.hist_total. cbn [map sumQ fold_right]. lra.
+  - inversion Hok as [|o' ops' Ho Hops]; subst o' ops'.
+    pose proof (hist_weight_nonneg o Ho) as Hh. pose proof (hist_total_nonneg ops Hops) as Ht.
+    pose proof (hist_cost_pos o Ho) as Hc.
+    assert (Et : hist_total (o :: ops) == hist_weight K o + hist_total ops).
+    { unfold ListDictF.hist_total. cbn [map]. rewrite sumQ_cons. reflexivity. }
+    assert (E2 : (j + hist_count (o :: ops))%nat = (j + hist_cost K o + hist_count ops)%nat).
+    { unfold ListDictF.hist_count. cbn [fold_right]. lia. }
+    pose proof (g_ge1 j) as Hg1.
+    (* the magnitude of this operation *)
+    assert (Hm : wsum s + hist_weight K o <= g j * (A + hist_weight K o)).
+    { assert (H : 1 * hist_weight K o <= g j * hist_weight K o)
+        by (apply Qmult_le_compat_r; assumption). lra. }
+    assert (Hmono : forall i, (j <= i)%nat ->
+              g j * (A + hist_weight K o) <= g i * (A + hist_weight K o + hist_total ops)).
+    { intros i Hi. pose proof (g_mono j i Hi) as H1. pose proof (g_ge1 i) as H2.
+      eapply Qle_trans; [apply (Qmult_le_compat_r _ _ (A + hist_weight K o) H1); lra|].
+      apply Qmult_le_nonneg_l; lra. }
+    assert (Hfin : wsum s + hist_weight K o <=
+                   g (j + hist_count (o :: ops)) * (A + hist_total (o :: ops))).
+    { rewrite Et. eapply Qle_trans; [exact Hm|].
+      setoid_replace (A + (hist_weight K o + hist_total ops))
+        with (A + hist_weight K o + hist_total ops) by ring.
+      apply Hmono. lia. }
+    cbn [ListDictF.ldf_peak]. cbv zeta.
+    destruct (ldf_step_spec s o Hinv Hw Ho) as [[k [_ [_ E]]]|[s1 [E [Hi [Hw1 [_ [Hs0 [Hs1 _]]]]]]]];
+      rewrite E; [exact Hfin|].
+    apply qmax_lub; [exact Hfin|].
+    rewrite E2, Et.
+    setoid_replace (A + (hist_weight K o + hist_total ops))
+      with (A + hist_weight K o + hist_total ops) by ring.
+    apply (IH s1 (j + hist_cost K o)%nat (A + hist_weight K o) Hi Hw1 Hops); [lra|].
+    eapply Qle_trans; [exact Hs1|].
+    assert (H1 : (1 + eps) * (wsum s + hist_weight K o)
+                 <= (1 + eps) * (g j * (A + hist_weight K o)))
+      by (apply Qmult_le_nonneg_l; lra).
+    eapply Qle_trans; [exact H1|].
+    rewrite Qmult_assoc, <- g_S.
+    apply Qmult_le_compat_r; [apply g_mono; lia|lra].
+Qed.
+
+(* ---------- from the empty structure ---------- *)
+Lemma drift_empty : drift (ld_empty true) == 0.
+Proof. reflexivity. Qed.
+
+Theorem ldf_drift_peak : forall ops s,
+  Forall (op_ok K true) ops -> ldf_run (ld_empty true) ops = Ok s ->
+  Qabs (drift s) <= gam (hist_count ops) * (2 * ldf_peak (ld_empty true) ops).
+Proof.
+  intros ops s Hok He.
+  assert (HP : 0 <= ldf_peak (ld_empty true) ops).
+  { destruct ops as [|o ops]; cbn [ListDictF.ldf_peak]; [lra|]. cbv zeta.
+    inversion Hok as [|o' ops' Ho Hops]; subst o' ops'.
+    pose proof (hist_weight_nonneg o Ho) as Hh.
+    assert (H0 : 0 <= wsum (ld_empty true) + hist_weight K o).
+    { unfold ListDictF.wsum. cbn [ld_empty items map sumQ fold_right]. lra. }
+    destruct (ListDictF.ldf_step K Keqb rnd (ld_empty true) o); [|exact H0].
+    eapply Qle_trans; [exact H0|apply qmax_l]. }
+  apply (drift_le_peak ops (ld_empty true) s 0 _ (ldf_empty_inv true) eq_refl Hok He).
+  - lra.
+  - rewrite drift_empty. change (Qabs 0) with 0. unfold gam, g. cbn [qpow]. lra.
+  - lra.
+Qed.
+
+Theorem ldf_drift_hist : forall ops s,
+  Forall (op_ok K true) ops -> ldf_run (ld_empty true) ops = Ok s ->
+  Qabs (drift s) <= gam (hist_count ops) * (2 * (g (hist_count ops) * hist_total ops)).
+Proof.
+  intros ops s Hok He.
+  eapply Qle_trans; [apply (ldf_drift_peak ops s Hok He)|].
+  apply Qmult_le_nonneg_l; [apply gam_nonneg|].
+  pose proof (peak_le_hist ops (ld_empty true) 0 0 (ldf_empty_inv true) eq_refl Hok) as H.
+  cbn [Nat.add] in H.
+  assert (H1 : ldf_peak (ld_empty true) ops <= g (hist_count ops) * (0 + hist_total ops)).
+  { apply H; [lra|]. unfold ListDictF.wsum. cbn [ld_empty items map sumQ fold_right]. lra. }
+  setoid_replace (0 + hist_total ops) with (hist_total ops) in H1 by ring. lra.
+Qed.
+
+(* an emptied structure carries no drift: the total is exactly 0 *)
+Theorem ldf_empty_total_zero : forall ops s,
+  Forall (op_ok K true) ops -> ldf_run (ld_empty true) ops = Ok s ->
+  items s = [] -> total s = 0.
+Proof.
+  intros ops s Hok He.
+  destruct (ldf_run_inv ops (ld_empty true) s (ldf_empty_inv true) eq_refl
+              (fun _ => eq_refl) Hok He) as [_ [_ Hr]].
+  exact Hr.
+Qed.
+
 End FP.
